@@ -39,6 +39,8 @@ FLOORS = {"quick": {"plans": 2000, "numeric_stops": 2000, "stops_coinciding": 50
 # floors for the situations added with the later rounds of seeded changes (evidence that they were really exercised)
 FLOORS["quick"].update({'inf_stop_probes': 2})
 FLOORS["thorough"].update({'inf_stop_probes': 2})
+FLOORS["quick"].update({'net_split_plans_with_monitor': 25, 'stop_instants_of_other_numeric_type': 800})
+FLOORS["thorough"].update({'net_split_plans_with_monitor': 125, 'stop_instants_of_other_numeric_type': 4000})
 PROFILE = {"weights": {"timeout": 5, "zero": 1, "wait": 3, "succeed": 2.5, "fail": 0.6, "spawn": 1.5, "join": 2,
                        "interrupt": 1.5, "cb": 0.7, "cond": 1.5, "chain": 0.3, "cbint": 0.2},
            "max_top": 5, "max_child_scripts": 3, "min_ev": 1, "max_ev": 3, "p_exact": 0.6, "p_raise": 0.08,
